@@ -512,3 +512,51 @@ Proof.
   rewrite realises_spec in Hr. apply (Hr d (dim_on d c)).
   apply in_map_iff. exists d. split; [reflexivity|]. exact (table_dims_complete t r d Hrt Hd).
 Qed.
+
+(* ---------------------------------------------------------------------------------------------- *)
+(* the configuration pipeline hands evaluation the capabilities of the configured target          *)
+Section ConfigPipelineProofs.
+  Variable R O X : Type.
+  Variable this_version : caps.
+  Variable provided_rules : R.
+  Variable provided_other : O.
+  Variable merge_rules : R -> R -> R.
+  Variable merge_other : O -> O -> O.
+  Variable add_custom_rules : R -> list rule_id -> R.
+
+  Theorem eval_capabilities_are_configured (o : lopts R O X) :
+    rego_capabilities R O X
+      (data_bundle R O X this_version provided_rules provided_other merge_rules merge_other add_custom_rules o)
+    = configured_target R O this_version (lo_user R O X o).
+  Proof.
+    unfold rego_capabilities, data_bundle, data_bundle_with, get_config_with, user_config_with_custom_rules,
+      configured_target. cbn [ed_combined_config].
+    destruct (lo_user R O X o) as [u|]; [|reflexivity].
+    destruct (lo_custom R O X o); reflexivity.
+  Qed.
+
+  (* the by-field copy loses them whenever a custom rule is loaded and the target is not regal's own *)
+  Theorem eval_capabilities_by_field_refuted (u : uconfig R O) (c : caps) (r : rule_id) (x : X) :
+    uc_caps R O u = Some c -> c <> this_version ->
+    rego_capabilities R O X
+      (data_bundle_with R O X this_version provided_rules provided_other merge_rules merge_other
+         (user_config_with_custom_rules_by_field R O X add_custom_rules) (mkOpts R O X (Some u) [r] x))
+    <> configured_target R O this_version (Some u).
+  Proof.
+    intros Hc Hne. unfold rego_capabilities, data_bundle_with, get_config_with,
+      user_config_with_custom_rules_by_field, configured_target. cbn. rewrite Hc. congruence.
+  Qed.
+
+  (* ... and only then *)
+  Theorem eval_capabilities_by_field_partial (o : lopts R O X) :
+    lo_custom R O X o = [] ->
+    rego_capabilities R O X
+      (data_bundle_with R O X this_version provided_rules provided_other merge_rules merge_other
+         (user_config_with_custom_rules_by_field R O X add_custom_rules) o)
+    = configured_target R O this_version (lo_user R O X o).
+  Proof.
+    intros Hc. unfold rego_capabilities, data_bundle_with, get_config_with,
+      user_config_with_custom_rules_by_field, configured_target. cbn [ed_combined_config].
+    destruct (lo_user R O X o) as [u|]; [|reflexivity]. rewrite Hc. reflexivity.
+  Qed.
+End ConfigPipelineProofs.
